@@ -44,7 +44,7 @@ FLOORS = {"restarts": {"quick": 120, "thorough": 1200}, "restarts_from_two_files
 F64 = "torch.float64"
 OPTIMS = ["SGD", "SGD-plain", "Adam", "AdamW", "Adagrad", "RMSprop", "LBFGS"]  # SGD-plain: no momentum, no per-parameter optimiser state
 SCHED = ["none", "LambdaLR", "StepLR", "ExponentialLR"]
-MCMC_OPS = ["scaler", "sliding", "dirichlet", "block", "hmc", "hmc-adaptive", "hmc-dual", "hmc-mass", "hmc-mass-window", "hmc-mass-swap", "hmc-dual+mass", "mixed"]
+MCMC_OPS = ["scaler-view", "sliding-cat", "scaler", "sliding", "dirichlet", "block", "hmc", "hmc-adaptive", "hmc-dual", "hmc-mass", "hmc-mass-window", "hmc-mass-swap", "hmc-dual+mass", "mixed"]
 
 
 def cases(tier, seed):
@@ -179,7 +179,15 @@ def mcmc_spec(case, rng, ckpt):
             hmc["adaptors"] = ad
         if case.get("find_step_size"):
             hmc["find_reasonable_step_size"] = True  # documented HMCOperator option: search a step size while the operator is constructed
-        sel = {"scaler": ["op.scale"], "sliding": ["op.slide"], "dirichlet": ["op.dirichlet"], "mixed": list(by)}.get(kind, ["op.hmc"])
+        if kind == "scaler-view":
+            # an operator acting on a view of a parameter (one coordinate of a vector)
+            spec.append({"id": "y.view", "type": "ViewParameter", "parameter": "y", "indices": "0:1"})
+            by["op.scale.view"] = c15.op("op.scale.view", "ScalerOperator", ["y.view"], rng, True, scaler=0.6)
+        if kind == "sliding-cat":
+            # an operator acting on a concatenation of two parameters
+            spec.append({"id": "x.big", "type": "CatParameter", "parameters": ["x", "big"], "dim": -1})
+            by["op.slide.cat"] = c15.op("op.slide.cat", "SlidingWindowOperator", ["x.big"], rng, True, width=0.7)
+        sel = {"scaler": ["op.scale"], "sliding": ["op.slide"], "dirichlet": ["op.dirichlet"], "mixed": list(by), "scaler-view": ["op.scale.view", "op.slide"], "sliding-cat": ["op.slide.cat", "op.scale"]}.get(kind, ["op.hmc"])
         ops = [by[i] for i in sel]
         if kind.startswith("hmc"):
             hmc["weight"] = 5.0
